@@ -9,6 +9,11 @@ CLAIMED = {
         design_ref="DESIGN.md section 5, C17",
         note="Trusted: Coq kernel + vm_compute; hand-written model Model/Arena.v tied by the per-step correspondence run; id_arena as append-only vector; HashMap as association list over Type's Eq. No axioms (Print Assumptions: closed under the global context).",
         technique="Coq proof: invariant by induction over fold of operations + refinement facts; model/code tie by differential replay evaluated in Coq"),
+    "C03": dict(
+        text="Coq theorem over tables REGENERATED from the Rust source on every run (one constructor per supported wasmparser operator, 517 today): for arbitrary parse-time and emit-time index maps, encode(decode o) is the same operator with bit-identical constants, alignment, offset, lane and shuffle immediates and every index immediate renamed by the composite renumbering of its own index space. A changed arm in append_instruction or visit_instr changes Gen/Ops.v and breaks the destruct proof on exactly that constructor. The tables are tied back to the real code by an enumerator that sends every operator the reference validator accepts (x boundary immediates, live and dead position) through real walrus and compares, inside Coq, with what the tables predict; an independent oracle checks that the operator came back unchanged. (Body structure / labels / locals are added by the ParseFn/EmitFn layers.)",
+        design_ref="DESIGN.md section 5, C03; section 3.1 G1-G3",
+        note="Trusted: Coq kernel + vm_compute; the Python translator (each generated arm is re-run against the real code per operator); operator identification by name between wasmparser and wasm-encoder; f32/f64 as bit patterns. Known finding excluded explicitly in the statement: memarg offset >= 2^32 (with refutation witness). No axioms.",
+        technique="Coq proof by case analysis over translator-generated decode/encode tables + per-operator differential enumeration evaluated in Coq"),
 }
 
 PENDING_REASON = "check not yet built in this snapshot (construction in progress per DESIGN.md section 10); an executable Coq model is planned, so this is not a claim that the technique cannot apply"
